@@ -385,8 +385,12 @@ def check_interval_loop(ctx):
     r, sev, _, sfi = runf(ctx.prog, SAU + 'sum_over_indices', pos=[a, ind])
     if sev.issues:
         raise AnalysisError(f"C01.4: sum_over_indices not canonicalisable: {sev.issues[:3]}")
+    # element j of the documented result: the sum runs over its own (bound) index, j is the element index - built with j as a separate symbol first,
+    # then renamed, so that the two are not confused
+    jj = sym.sym('$outer_j')
+    lo_j, hi_j = ind.at(jj).r, ind.at(jj + C(1)).r
+    want = sym.subst(sym.mk_sum(a.at(sym.idx() + lo_j).r, hi_j - lo_j), {next(iter(jj.atoms())): sym.idx()})
     lo, hi = ind.at(sym.idx()).r, ind.at(sym.idx() + C(1)).r
-    want = sym.mk_sum(a.at(sym.idx() + lo).r, hi - lo)
     from .common import foreign_heads
     fh_ = foreign_heads(r, Num(want, J))
     if fh_ and not (isinstance(r, Num) and r.length is not None and r.r == want):
